@@ -69,6 +69,10 @@ def run(chk, F, family, delegates, rid="R-DESCEND", prop=""):
             raise AnalysisBroken("expression_t::%s not found" % name)
         for fn in fns:
             n += 1
+            from .effects import is_worklist_form
+            if is_worklist_form(fn):
+                raise AnalysisBroken("expression_t::%s walks the tree with a work list: R-DESCEND reads recursion and loops over "
+                                     "the operands of `this` only" % name)
             x = expanded_fn(fn, F, stop=tuple(fam), accept=lambda t: not t.get("cls"))   # file-local helpers, lambdas
             size_locals = set()
             begin_locals = set()        # `const auto operands = data->sub.begin();`
